@@ -14,13 +14,13 @@ func init() {
 			doc:  "line-at-a-time driver: in continuation mode a non-empty line is only buffered; an empty line (or any line outside continuation mode) compiles buffer+line; an incomplete-input error buffers the line and enters continuation mode; any other outcome leaves continuation mode and clears the buffer before reporting or running"},
 		{key: "symtable|SymTable.AnalyzeBlock", prop: "C03", rule: "C03.R3", show: []string{"*"}, noAssign: true,
 			prim: []string{"(*symtable.SymTable).AnalyzeName", "(*symtable.SymTable).AnalyzeChildBlock", "symtable.AnalyzeCells", "(*symtable.SymTable).DropClassFree", "(symtable.Symbols).Update", "(symtable.StringSet).Update", "(symtable.StringSet).Add"},
-			doc: "block analysis order: for a class block the sets handed to children are copied from bound/global BEFORE the block's own names are analysed (class bindings, including a `global` in the class body, are not visible in methods); for other blocks after; children are analysed on those sets; cells computed for function blocks, __class__ dropped for class blocks; symbols updated; free propagated [symtable.c analyze_block]"},
+			doc:  "block analysis order: for a class block the sets handed to children are copied from bound/global BEFORE the block's own names are analysed (class bindings, including a `global` in the class body, are not visible in methods); for other blocks after; children are analysed on those sets; cells computed for function blocks, __class__ dropped for class blocks; symbols updated; free propagated [symtable.c analyze_block]"},
 		{key: "vm|unpack_iterable", prop: "C01", rule: "C01.R8", show: []string{"*"}, raises: false,
 			prim: []string{"py.Iter", "py.Next", "py.ExceptionNewf", "py.IsException", "(*py.List).M__getitem__", "(*py.List).Resize", "py.NewList", "(*py.List).Append"},
-			doc: "sequence unpacking (UNPACK_SEQUENCE / UNPACK_EX): the first argcnt items are stored downwards from the top so that the leftmost target is popped first; the starred list takes the rest; the after-star items are taken from the end of that list in the same downward order [ceval.c unpack_iterable]"},
+			doc:  "sequence unpacking (UNPACK_SEQUENCE / UNPACK_EX): the first argcnt items are stored downwards from the top so that the leftmost target is popped first; the starred list takes the rest; the after-star items are taken from the end of that list in the same downward order [ceval.c unpack_iterable]"},
 		{key: "vm|do_SETUP_WITH", prop: "C02", rule: "C02.R7", show: []string{"*"},
 			prim: []string{"py.GetAttrString", "py.Call", "py.ExceptionNewf"},
-			doc: "with statement entry: __exit__ is looked up and pushed, __enter__ is looked up and called, and only after it returned without error is the finally block pushed and the result pushed — an exception from __enter__ must not run __exit__ [ceval.c SETUP_WITH]"},
+			doc:  "with statement entry: __exit__ is looked up and pushed, __enter__ is looked up and called, and only after it returned without error is the finally block pushed and the result pushed — an exception from __enter__ must not run __exit__ [ceval.c SETUP_WITH]"},
 		{key: "compile|Instructions.EndsWithReturn", prop: "C12", rule: "C12.R7", show: []string{"*"},
 			doc: "the implicit `return None` is omitted only when the very last element of the instruction stream is a RETURN_VALUE: a trailing label is a jump target that needs an instruction after it"},
 		{key: "parser|yyLex.ErrorReturn", prop: "C20", rule: "C20.R3", show: []string{"*"}, prim: []string{"py.ExceptionNewf"},
